@@ -1,3 +1,3 @@
-from . import heap_props
+from . import c04, c18, heap_props
 
-MODULES = {"C01": heap_props, "C02": heap_props, "C03": heap_props, "C16": heap_props}
+MODULES = {"C01": heap_props, "C02": heap_props, "C03": heap_props, "C16": heap_props, "C18": c18, "C04": c04}
